@@ -371,7 +371,114 @@ func runC12(c *Ctx) {
 	}
 	c.History = ops
 	c.SetPlan("history_len", len(ops))
+	c12NotificationHandlers(c, w, cl, mode)
 	cl.API.Close()
+}
+
+// c12NotificationHandlers: the fourth registry of the statement.  Server-side handlers for a client
+// notification are registered (each with a version of its own) and unregistered by one task while
+// the client keeps sending that notification; afterwards the registry must be exactly what the last
+// operation left: one more notification reaches the last registered version once, or nobody.
+func c12NotificationHandlers(c *Ctx, w *World, cl *Client, mode string) {
+	s, t := c.S, c.T
+	const method = "notifications/roots/list_changed"
+	var handled []int
+	set := func(v int) {
+		var h mcp.ServerNotificationHandler
+		if v > 0 {
+			h = func(ctx context.Context, n *mcp.JSONRPCNotification) error {
+				c.mu.Lock()
+				handled = append(handled, v)
+				c.mu.Unlock()
+				s.Yield("server-notification-handler")
+				return nil
+			}
+		}
+		switch {
+		case w.Srv != nil:
+			if h != nil {
+				w.Srv.RegisterNotificationHandler(method, h)
+			} else {
+				w.Srv.UnregisterNotificationHandler(method)
+			}
+		case w.SSE != nil:
+			if h != nil {
+				w.SSE.RegisterNotificationHandler(method, h)
+			} else {
+				w.SSE.UnregisterNotificationHandler(method)
+			}
+		default:
+			for _, l := range w.stdios {
+				if h != nil {
+					l.Srv.RegisterNotificationHandler(method, h)
+				} else {
+					l.Srv.UnregisterNotificationHandler(method)
+				}
+			}
+		}
+	}
+	notify := func() error {
+		ctx, cancel := context.WithTimeout(context.Background(), time.Minute)
+		defer cancel()
+		if cl.HTTP != nil {
+			return cl.HTTP.SendRootsListChangedNotification(ctx)
+		}
+		return cl.Stdio.SendRootsListChangedNotification(ctx)
+	}
+	nChurn, nSend := 1+t.Draw(6), 1+t.Draw(5)
+	last := 0
+	var seq []int
+	for i := 1; i <= nChurn; i++ {
+		v := i
+		if t.Bool(30) {
+			v = 0
+		}
+		seq = append(seq, v)
+		last = v
+	}
+	c.SetPlan("notification_handler_versions", seq)
+	sent := 0
+	churn := s.Go("handler-churn", func() {
+		for _, v := range seq {
+			set(v)
+			s.Yield("churn#next")
+		}
+	})
+	sender := s.Go("notifier", func() {
+		for i := 0; i < nSend; i++ {
+			if err := notify(); err != nil {
+				s.Violate("C12|client-notification-failed|"+mode, "sending %s while server-side handlers change failed: %v", method, err)
+				return
+			}
+			sent++
+		}
+	})
+	for _, a := range s.WaitTasks(10*time.Minute, churn, sender) {
+		s.Violate("C12|stuck|"+mode, "%s did not finish", a.Name)
+		return
+	}
+	s.Settle(50 * time.Millisecond)
+	c.mu.Lock()
+	before := len(handled)
+	c.mu.Unlock()
+	if before > sent {
+		s.Violate("C12|notification-handled-twice|"+mode, "%d notifications were sent, server-side handlers ran %d times: %v", sent, before, handled)
+	}
+	if err := notify(); err != nil {
+		s.Violate("C12|client-notification-failed|"+mode, "sending %s failed: %v", method, err)
+		return
+	}
+	s.Settle(50 * time.Millisecond)
+	c.mu.Lock()
+	after := append([]int(nil), handled[before:]...)
+	c.mu.Unlock()
+	switch {
+	case last == 0 && len(after) != 0:
+		s.Violate("C12|unregistered-notification-handler-ran|"+mode, "the handler was unregistered last, yet a notification sent afterwards was handled by version(s) %v", after)
+	case last != 0 && (len(after) != 1 || after[0] != last):
+		s.Violate("C12|stale-notification-handler|"+mode, "version %d was registered last (sequence %v); a notification sent afterwards was handled by %v", last, seq, after)
+	}
+	s.Probe("c12.notification_handlers")
 }
 
 // postC12 checks the recorded history for linearizability outside the bubble (real clock).
